@@ -912,6 +912,7 @@ def fd_check(op, D, seed, max_coords):
         problems.append({"kind": "non-finite-value", "what": f"value {float(y)}"})
         return info, problems
     grads = torch.autograd.grad(y, leaves, allow_unused=True)
+    y0 = float(y)
     rng = random.Random(seed)
     checked = 0
     worst = 0.0
@@ -950,6 +951,14 @@ def fd_check(op, D, seed, max_coords):
                     fd2 = (yp - ym) / (2 * e2)
                     if abs(ag - fd2) <= 2e-3 * (1 + abs(fd2)):
                         agreed = True
+                        break
+                    # a kink (interpolation cell boundary, clamping) at the evaluation point itself: the two one-sided
+                    # derivatives differ and autograd returns one of them -- excluded by the property ("non-kink inputs")
+                    fwd, bwd = (yp - y0) / e2, (y0 - ym) / e2
+                    if e2 >= 1e-4 and abs(fwd - bwd) > 4e-3 * (1 + abs(fd2)) and \
+                            min(abs(ag - fwd), abs(ag - bwd)) <= 2e-3 * (1 + abs(ag)):
+                        agreed = True
+                        info["kink_at_input"] = info.get("kink_at_input", 0) + 1
                         break
                 if agreed:
                     info["coarse_step_used"] = info.get("coarse_step_used", 0) + 1
